@@ -132,18 +132,16 @@ class Sess:
             return
         c = rng.choice(subs)
         if r < 10:
-            if rng.randrange(3):
-                self.tick()
+            self.tick()
             self.sub(c, rng.choice(self.chans))
         elif r < 15:
-            if rng.randrange(3):
-                self.tick()
+            self.tick()
             ch = rng.choice(sorted(self.subs[c])) if self.subs[c] and rng.randrange(5) else rng.choice(self.chans)
             self.unsub(c, ch)
         elif r < 17:
             self.tick()
             self.close(c)
-        elif r < 19:
+        elif r < 19 or rng.randrange(3):
             self.burst(c)
         else:
             # a clock that does not advance / steps back between two operations of one connection
